@@ -3,6 +3,7 @@ from __future__ import annotations
 
 import json
 
+import pyden
 import rules
 from common import Err
 
@@ -62,7 +63,7 @@ def oracle(case, obs):
     for k, (a, depth, _cache) in enumerate(obs):
         if depth != 0:
             return f"stack: evaluation stack not empty after request {k}: depth {depth}"
-    return None
+    return pyden.check_case(case, obs)
 
 
 def nontrivial(case, obs):
